@@ -7,6 +7,7 @@ if [ -n "$(git status --porcelain --untracked-files=no)" ]; then echo "/repo is 
 git apply --check "$PATCH" || { echo "patch does not apply"; exit 2; }
 git apply "$PATCH"
 cd /verif
+export ORDSIM_EVIDENCE_DIR=/verif/build/seeded-evidence ORDSIM_REPLAY_DIR=/verif/build/seeded-replays
 for p in "$@"; do
   echo "=== $p against $(basename $(dirname $PATCH))"
   ./check $p --tier quick 2>&1 | grep -E "^(VIOLATION|KNOWN-FINDING|C[0-9]+:|harness error|  class=)" | sort | uniq -c | sort -rn | head -8
